@@ -35,6 +35,10 @@ keyword vs positional arguments or on whether a sub-expression has a name.
   C06.FRESH every sample fetch_next_with_fallback() hands to a round comes from an awaited receive() of this call or
             from the fallback synchronisation called in it -- never from state kept from an earlier round.
 
+  C06.REALIGN in the steady state a round whose fetched samples carry different timestamps is never evaluated: on every path it
+            awaits the synchronisation routine first, and nothing but the samples' timestamps (and _first_run) decides that
+            (a re-synchronisation that is conditional on a flag / "has a fallback" / the number of inputs is explored both ways).
+
 C06.3PH also demands the alignment in EVERY round (no path from the start of a round to the sample avoids the
 reference, unless a guard over the round's three timestamps proves them equal).
 
@@ -1084,6 +1088,29 @@ def check_sync(run: Run, prog: Program, rule: str = "C06.SYNC") -> None:
 
 
 # ---------------------------------------------------------------------------------------------
+def check_realign(run: Run, prog: Program) -> None:
+    """C06.REALIGN ("... its value is computed only from the input samples stamped T"): after the first run apply() stamps the
+    round with the timestamp of an arbitrary fetched sample, which is only right while all fetched samples of the round carry
+    that timestamp.  Nothing guarantees that: an input that is the output of another formula engine has a hole whenever that
+    engine drops a round or re-synchronises, a fallback takes over with its own first sample, a resampled stream skips.
+    So in the steady state the *only* thing that may decide between "evaluate" and "re-synchronise" is the set of
+    timestamps of the round's samples: on no path a round whose samples carry 2 (or 3) different timestamps reaches a
+    return without the synchronisation routine having been awaited -- whatever else the branch consults (a configuration
+    flag, "this formula has a fallback", the number of inputs, a round counter) is explored both ways."""
+    raw = prog.func(f"{FE}.apply")
+    run.analysed(raw.qual)
+    ok, why = resyncs_on_divergence(prog)
+    blame = getattr(prog, "_resync_blame", None) or []
+    run.check(ok, "C06.REALIGN", raw.qual, "steady state: samples of different timestamps are never combined (re-synchronised, unconditionally)",
+              f"{why}.  The round is then evaluated from samples of different timestamps and stamped with the timestamp of an "
+              "arbitrary one of them, and -- one fetch per input per round from then on -- every later round is shifted the same "
+              "way: the inputs never get back in step.  Inputs get out of step in the steady state whenever ONE of them has a "
+              "hole (the output of a composed formula engine that dropped or re-synchronised a round, a fallback that took over "
+              "with its own first sample, a stream that skipped), so the re-synchronisation may depend on the timestamps of the "
+              "round's samples (and on the first run) only -- not on whether the formula has a fallback, on a flag, on the "
+              "number of inputs or on how many rounds have passed", node=(blame[0] if blame else raw.node), file=raw.file)
+
+
 def check_send(run: Run, prog: Program) -> None:
     """C06.SEND ("... advance by exactly one input step with none skipped, repeated or reordered"): what the loop that
     drives a formula hands to its channel is the sample of *this* round, once.
@@ -1662,6 +1689,19 @@ def build_controls(prog: Program) -> list[tuple[str, str, str, str, str]]:
             add("cached fallback sample handed out again", STEPS, stmt_patch(
                 fwf, ret, lambda tx: f"{indent_of(tx)}return self._latest_fallback_sample\n"), "C06.FRESH")
             break
+    # REALIGN: the steady-state re-synchronisation made conditional on something that is not a timestamp (a flag of the
+    # evaluator); anchored at the branch that awaits the synchronisation: the operand(s) beside `_first_run`
+    for m in ev.methods.values():
+        hit3 = next((i for i in ast.walk(m.node) if isinstance(i, ast.If) and isinstance(i.test, ast.BoolOp) and isinstance(i.test.op, ast.Or)
+                     and any(u(v) == "self._first_run" for v in i.test.values) and len(i.test.values) == 2
+                     and any(isinstance(c, ast.Call) and _is_sync_call(c) for b in i.body for c in ast.walk(b))), None)
+        if hit3 is not None:
+            other = next(v for v in hit3.test.values if u(v) != "self._first_run")
+            otxt = seg(m.module, other)
+            add("re-synchronisation only when a flag of the evaluator says so", EVAL, src_patch(
+                m.module, other.lineno, other.end_lineno or other.lineno,
+                lambda t, otxt=otxt: t.replace(otxt, f"(self._resync_enabled and {otxt})", 1)), "C06.REALIGN")
+            break
     # 3PH: the phases are aligned until they were in step once, then zipped as they arrive
     loop3 = next((w for w in ast.walk(ph.node) if isinstance(w, ast.While) and isinstance(w.test, ast.Constant)
                   and any(d is x for d in drains for x in ast.walk(w))), None)
@@ -1678,7 +1718,7 @@ def build_controls(prog: Program) -> list[tuple[str, str, str, str, str]]:
 
         add("phases aligned only until they were in step once", ENGINE, src_patch(ph.module, loop3.lineno, hi3, once), "C06.3PH")
     if len(out) < 6:
-        raise AnalysisError(f"C06: only {len(out)} of 21 seeded controls could be derived from the source ({[o[0] for o in out]})")
+        raise AnalysisError(f"C06: only {len(out)} of 22 seeded controls could be derived from the source ({[o[0] for o in out]})")
     return out
 
 
@@ -1701,6 +1741,7 @@ def run_rules(run: Run, prog: Program) -> None:
     check_send(run, prog)
     check_plain_primary(run, prog, "C06.ONE")
     check_sync(run, prog)
+    check_realign(run, prog)
     fallback_sync(run, prog, rule="C06.FSYNC")
     check_3ph(run, prog)
     # no timestamp is skipped: a step that raises (or leaves the stack malformed) makes FormulaEngine._run drop the
@@ -1728,7 +1769,10 @@ def check(run: Run, prog: Program, tier: str) -> str:
              "that raised, the argument of send is the value this round's apply() returned, one send per evaluation")
     run.rule("C06.FRESH", "every sample the fallback-aware fetch hands to a round was read from a stream in this call (or is the "
              "result of the fallback synchronisation called in it), never state kept from an earlier round")
+    run.rule("C06.REALIGN", "in the steady state a round whose fetched samples carry different timestamps is never evaluated: it "
+             "awaits the synchronisation routine, and nothing but the samples' timestamps (and the first run) decides that")
     run_rules(run, prog)
+    run.floor("C06.REALIGN", 1)
     run.floor("C06.SEND", 3)
     run.floor("C06.FRESH", 2)
     run.floor("C06.NAME", 1)
